@@ -2,8 +2,9 @@
   C20 — the answer for a colour equals the answer on the network instantiated by it.
 -/
 import HctlProofs.Lemmas.Corollaries
+import HctlProofs.Lemmas.EntryPoints
 namespace Hctl.C20
-open Hctl
+open Hctl Kripke
 
 /-- Satisfaction at a point of colour `c` mentions only colour `c`'s transition system. -/
 theorem sat_colourwise {G G' : Graph} {c c' : Nat} (h : AgreeCol G G' c c') (t : Tree) (s : Nat) (v : List Nat) :
@@ -45,5 +46,35 @@ private def G2w : Graph :=
     step := fun _ _ s => some (1 - s)
     label := fun _ => none }
 example : AgreeCol G2 G2w 1 0 := ⟨rfl, rfl, fun _ _ => by simp [G2, G2w], rfl⟩
+
+/-- GENERAL FORM: any two semantically exact results (cached or not) for the same plain formula, on a family and on a
+graph whose colour `c'` has the transitions of the family's colour `c`, have the same slice -/
+theorem colour_slice_sem {E E' : Env} {c c' : Nat} (h : AgreeCol E.G E'.G c c') (hv : E.G.valid c = true)
+    (hv' : E'.G.valid c' = true) (t : Tree) (r r' : CSet) (hr : Sem E r E.G.unit0 (sat E.G noCtx t))
+    (hr' : Sem E' r' E'.G.unit0 (sat E'.G noCtx t))
+    (s : Nat) (v : List Nat) (hmem : (⟨s, c, v⟩ : Point) ∈ E.pts) (hmem' : (⟨s, c', v⟩ : Point) ∈ E'.pts) :
+    r ⟨s, c, v⟩ = r' ⟨s, c', v⟩ := by
+  apply Bool.eq_iff_iff.mpr
+  rw [hr _ hmem, hr' _ hmem']
+  simp only [Graph.unit0, hv, hv', true_and]
+  exact sat_colourwise h t s v
+
+/-- END TO END: the plain batch entry point on the family and on the instantiated network — the slices coincide -/
+theorem colour_slice_entry {C : CharClass} (hC : Lex.CharsOK C) {E E' : Env} (hE : EnvOK E) (hG : GraphWF E.G)
+    (hA : C12.GraphAsync E.G) (hE' : EnvOK E') (hG' : GraphWF E'.G) (hA' : C12.GraphAsync E'.G)
+    {c c' : Nat} (h : AgreeCol E.G E'.G c c') (hv : E.G.valid c = true) (hv' : E'.G.valid c' = true)
+    (trees : List Tree) (hq : ∀ t ∈ trees, GoodQ C E noCtx E.G.unit0 t E.G.unit0 [])
+    (hq' : ∀ t ∈ trees, GoodQ C E' noCtx E'.G.unit0 t E'.G.unit0 []) :
+    ∃ rs rs', Api.treesDirty E E.G.unit0 trees = .ok rs ∧ Api.treesDirty E' E'.G.unit0 trees = .ok rs' ∧
+      ∀ i (hi : i < rs.length) (hi' : i < rs'.length) s v, (⟨s, c, v⟩ : Point) ∈ E.pts → (⟨s, c', v⟩ : Point) ∈ E'.pts →
+        rs[i] ⟨s, c, v⟩ = rs'[i] ⟨s, c', v⟩ := by
+  obtain ⟨rs, h1, hl1, a1⟩ := C04.treesDirty_sound hC hE hG hA E.G.unit0 trees
+    (fun p hp i t ht => (unitOK_unit0 E).indepFrom p hp i t (Nat.zero_le _) ht) hq
+  obtain ⟨rs', h2, hl2, a2⟩ := C04.treesDirty_sound hC hE' hG' hA' E'.G.unit0 trees
+    (fun p hp i t ht => (unitOK_unit0 E').indepFrom p hp i t (Nat.zero_le _) ht) hq'
+  refine ⟨rs, rs', h1, h2, ?_⟩
+  intro i hi hi' s v hm hm'
+  have ht : i < trees.length := by omega
+  exact colour_slice_sem h hv hv' trees[i] rs[i] rs'[i] (a1 i ht hi) (a2 i ht hi') s v hm hm'
 
 end Hctl.C20
